@@ -175,6 +175,9 @@ pub struct ScenShape {
     pub attempts: usize,
     /// events per attempt: 2 = Started, Finished; 3 = with one step result
     pub events: usize,
+    /// the only attempt fails with a retry left and the retry never comes (a run cut by
+    /// fail-fast, a skipped step rewritten by `fail_on_skipped` under retries)
+    pub cut: bool,
 }
 
 #[derive(Clone, Debug)]
@@ -283,8 +286,8 @@ pub fn build_poset(shape: &Shape) -> Poset {
             let step_text = format!("step {sname} 1");
             let mut prev = start_pred;
             for k in 0..s.attempts {
-                let retries = (s.attempts > 1).then(|| (k, s.attempts - 1 - k));
-                let last_attempt = k + 1 == s.attempts;
+                let retries = if s.cut { Some((0, 1)) } else { (s.attempts > 1).then(|| (k, s.attempts - 1 - k)) };
+                let last_attempt = k + 1 == s.attempts && !s.cut;
                 let mut seq = vec![ScEv::Started];
                 if s.events >= 4 {
                     // a log line emitted inside the scenario: an event like any other
@@ -350,7 +353,7 @@ pub fn shapes(max_weight: usize, max_feats: usize, max_scen: usize) -> Vec<Shape
     for rule in [0usize, 1, 2] {
         for attempts in 1..=2 {
             for events in [2usize, 3] {
-                scen_opts.push(ScenShape { rule, attempts, events });
+                scen_opts.push(ScenShape { rule, attempts, events, cut: false });
             }
         }
     }
@@ -596,7 +599,7 @@ fn final_checks(input: &[Ev], out: &[Ev], order: &[usize], shape_idx: usize, sta
 pub fn tier_shapes(thorough: bool) -> Vec<Shape> {
     let mut v = if thorough { shapes(14, 2, 3) } else { shapes(12, 2, 2) };
     // three overlapping features (the middle one may stay idle while the third one buffers)
-    let one = |rule: usize, attempts: usize, events: usize| vec![ScenShape { rule, attempts, events }];
+    let one = |rule: usize, attempts: usize, events: usize| vec![ScenShape { rule, attempts, events, cut: false }];
     let mut three = vec![
         vec![one(0, 1, 2), one(0, 1, 2), one(0, 1, 2)],
         vec![one(0, 1, 2), one(1, 1, 2), one(0, 1, 2)],
@@ -615,6 +618,20 @@ pub fn tier_shapes(thorough: bool) -> Vec<Shape> {
         v.push(Shape { feats: vec![one(1, 2, 4)], parsing_finished: pf, parse_err: pe, twins: false });
     }
     v.push(Shape { feats: vec![one(0, 1, 4), one(0, 1, 4)], parsing_finished: false, parse_err: false, twins: false });
+    // abandoned retries: at feature level, inside a rule, next to a complete scenario, before
+    // another feature
+    let cut = |rule: usize| ScenShape { rule, attempts: 1, events: 3, cut: true };
+    let ok = |rule: usize| ScenShape { rule, attempts: 1, events: 2, cut: false };
+    for feats in [
+        vec![vec![cut(0)]],
+        vec![vec![cut(1)]],
+        vec![vec![cut(1), ok(0)]],
+        vec![vec![cut(0), ok(1)]],
+        vec![vec![cut(0)], vec![ok(0)]],
+        vec![vec![cut(1)], vec![ok(0)]],
+    ] {
+        v.push(Shape { feats, parsing_finished: false, parse_err: false, twins: false });
+    }
     v
 }
 
